@@ -1,7 +1,6 @@
 package props
 
 import (
-	"bytes"
 	"encoding/json"
 	"fmt"
 	"math"
@@ -258,7 +257,7 @@ func safeReadJSON(text string) (c store.Cursor, err error) {
 			err = &panicError{r}
 		}
 	}()
-	return xsel.ReadJson(bytes.NewBufferString(text))
+	return xsel.ReadJson(readerFor([]byte(text)))
 }
 
 func checkC16(c *c16Case) error {
